@@ -1,5 +1,7 @@
 import WindVerif.Proofs.LineFile
 import WindVerif.Proofs.RecFileM
+import WindVerif.Proofs.LineFileSeq
+import WindVerif.Proofs.RecFileSeq
 /-!
 # C12 — Mutable line files act as a list of lines; save writes it; source untouched
 
@@ -88,6 +90,48 @@ theorem getInt_spec (f : LF) (ls : List Str) (h : Good f ls) (i : Int) :
 /-- non-vacuity -/
 example : ((⟨"a\nb\n".toList, [.off 0, .off 2], 0, false, false⟩ : LF).setItem (-1) "X".toList).toOption.map (·.lines) =
     some [.off 0, .str "X".toList] := by decide
+
+/-! ### the inherited `MutableSequence.remove` and `clear` (`Model/LineFileSeq.lean`, `Proofs/LineFileSeq.lean`) -/
+
+/-- `f.remove(v)` (the model of `Model/LineFile.lean`, `remove_spec` above) is `del f[f.index(v)]` with the inherited
+`Sequence.index` of C11 -/
+theorem remove_eq_del_index (f : LF) (v : Str) :
+    f.remove v = match lfIndex f v none none with
+      | .error e => .error e
+      | .ok (f', p) => f'.delItem (p : Int) := by
+  first | exact WindVerif.LineFile.remove_eq_del_index .. | (apply WindVerif.LineFile.remove_eq_del_index <;> assumption)
+
+theorem remove_closed (f : LF) (hc : f.closed = true) (v : Str) : f.remove v = .error .runtimeError := by
+  first | exact WindVerif.LineFile.remove_closed .. | (apply WindVerif.LineFile.remove_closed <;> assumption)
+
+/-- `f.clear()` on an opened file: the file presents the empty list (and is dirty unless it was empty already, in which
+case nothing changes); the source content is untouched -/
+theorem clear_spec (f : LF) (ls : List Str) (h : Good f ls) (hc : f.closed = false) :
+    ∃ f', f.clear = .ok f' ∧ Good f' [] ∧ f'.content = f.content ∧ f'.closed = false ∧
+      (ls ≠ [] → f'.dirty = true) ∧ (ls = [] → f' = f) := by
+  first | exact WindVerif.LineFile.clear_spec .. | (apply WindVerif.LineFile.clear_spec <;> assumption)
+
+/-- a closed file: the first `self.pop()` raises `RuntimeError` (before it could raise `IndexError`, even without lines) -/
+theorem clear_closed (f : LF) (hc : f.closed = true) : f.clear = .error .runtimeError := by
+  first | exact WindVerif.LineFile.clear_closed .. | (apply WindVerif.LineFile.clear_closed <;> assumption)
+
+/-- the fuel of the `clear` loop suffices on every file: more changes nothing -/
+theorem clearGo_fuel (fuel : Nat) (f : LF) (h : f.lines.length < fuel) :
+    f.clearGo fuel = f.clearGo (f.lines.length + 1) := by
+  first | exact WindVerif.LineFile.clearGo_fuel .. | (apply WindVerif.LineFile.clearGo_fuel <;> assumption)
+
+/-- non-vacuity: an opened file of two lines with an inserted third; `clear` leaves no line and sets `dirty`; on the
+closed file it raises `RuntimeError`; on an opened file without lines it changes nothing -/
+example :
+    let f := ((LF.new "a\nb\n".toList (some [0, 2])).open).insert 1 "x".toList
+    (f.clear.toOption.map (fun g => (g.lines, g.dirty, g.content))) = some ([], true, "a\nb\n".toList) ∧
+    (match f.close.clear with | .error .runtimeError => true | _ => false) = true ∧
+    ((LF.new [] (some [])).open.clear.toOption.map (fun g => (g.lines, g.dirty))) = some ([], false) ∧
+    (f.remove "x".toList).toOption.map (·.lines) = some [.off 0, .off 2] := by
+  decide
+
+example : Good (LF.new "a\nb\n".toList (some [0, 2])).open ["a".toList, "b".toList] :=
+  (WindVerif.LineFile.open_good _ _ (WindVerif.LineFile.new_custom_good _ _ _ (by decide))).1
 
 end WindVerif.C12
 
@@ -185,6 +229,65 @@ theorem records_history {R : Type} (F : Fmt R) (P : R → Prop) (hmem : F.OkMem 
     ((RecFile.open source).run F ops).records F = ops.foldl (fun l op => op.onList l) (source.map F.load) := by
   rw [← WindVerif.RecFile.records_open F source]
   exact WindVerif.RecFile.records_run F P hmem ops _ (WindVerif.RecFile.inv_open F P source hsrc) hl hops
+
+/-! ### the record variant of the inherited `remove` and `clear` (`Model/RecFileSeq.lean`, `Proofs/RecFileSeq.lean`) -/
+
+/-- `f.remove(r)` when every position loads: the first record equal to `r` is removed — the position, whatever text it
+holds —, `ValueError` and no change when there is none -/
+theorem rec_remove_spec {R : Type} [DecidableEq R] (F : Fmt R) (f : RecFile) (rs : List R)
+    (hrs : f.records F = rs.map some) (r : R) :
+    (r ∈ rs → ∃ f', f.removeRec F r = .ok f' ∧ f'.records F = (rs.erase r).map some ∧ f'.source = f.source ∧
+      f'.slots = f.slots.eraseIdx (rs.idxOf r)) ∧
+    (r ∉ rs → f.removeRec F r = .error .valueError) := by
+  first | exact WindVerif.RecFile.removeRec_spec .. | (apply WindVerif.RecFile.removeRec_spec <;> assumption)
+
+/-- `f.clear()` when every position loads: nothing is left, nothing is raised, the source is as before -/
+theorem rec_clear_spec {R : Type} (F : Fmt R) (f : RecFile) (rs : List R) (hrs : f.records F = rs.map some) :
+    f.clearRec F = (⟨f.source, []⟩, none) := by
+  first | exact WindVerif.RecFile.clearRec_spec .. | (apply WindVerif.RecFile.clearRec_spec <;> assumption)
+
+/-- `clear()` on ANY record file pops from the end as long as the last position loads (`pop` loads what it removes): with
+`_lines = pre ++ suf`, every position of `suf` loading and `pre` empty or ending in a position that does not load, `pre`
+stays — and the exception of `load` for its last position is raised unless `pre` is empty -/
+theorem rec_clear_general {R : Type} (F : Fmt R) (fuel : Nat) (f : RecFile) (pre suf : List Slot)
+    (hs : f.slots = pre ++ suf) (hsuf : ∀ s ∈ suf, ∃ x, F.load (f.raw s) = some x)
+    (hpre : pre = [] ∨ ∃ init last, pre = init ++ [last] ∧ F.load (f.raw last) = none)
+    (hf : pre.length + suf.length < fuel) :
+    f.clearGo F fuel = (⟨f.source, pre⟩, if pre = [] then none else some .loadError) := by
+  first | exact WindVerif.RecFile.clearGo_spec .. | (apply WindVerif.RecFile.clearGo_spec <;> assumption)
+
+/-- the fuel of the `clear` loop suffices on every record file -/
+theorem rec_clearGo_fuel {R : Type} (F : Fmt R) (fuel : Nat) (f : RecFile) (h : f.slots.length < fuel) :
+    f.clearGo F fuel = f.clearGo F (f.slots.length + 1) := by
+  first | exact WindVerif.RecFile.clearGo_fuel .. | (apply WindVerif.RecFile.clearGo_fuel <;> assumption)
+
+/-- LIST SEMANTICS with `remove` and `clear` (`Op2` = the operations of `Op`, `remove r`, `clear`): the presented record
+list after an operation is the Python list operation applied to the presented list before (`list.remove` deletes the first
+equal element; when it raises `ValueError` the list — and the file — stay as they are) -/
+theorem records_list_semantics2 {R : Type} [DecidableEq R] (F : Fmt R) (P : R → Prop) (hmem : F.OkMem P) (f : RecFile)
+    (hf : Inv F P f) (hl : Loads F P f.source) (op : Op2 R) (hop : ∀ r ∈ op.recs, P r) :
+    (f.step2 F op).records F = op.onList (f.records F) := by
+  first | exact WindVerif.RecFile.records_list_semantics2 .. | (apply WindVerif.RecFile.records_list_semantics2 <;> assumption)
+
+/-- … for every history, starting from the freshly opened file -/
+theorem records_history2 {R : Type} [DecidableEq R] (F : Fmt R) (P : R → Prop) (hmem : F.OkMem P)
+    (source : List RecFile.Str) (hsrc : ∀ l ∈ source, '\n' ∉ l) (hl : Loads F P source) (ops : List (Op2 R))
+    (hops : ∀ op ∈ ops, ∀ r ∈ op.recs, P r) :
+    ((RecFile.open source).run2 F ops).records F = ops.foldl (fun l op => op.onList l) (source.map F.load) := by
+  rw [← WindVerif.RecFile.records_open F source]
+  exact WindVerif.RecFile.records_run2 F P hmem ops _ (WindVerif.RecFile.inv_open F P source hsrc) hl hops
+
+/-- non-vacuity: `remove` of a record whose first occurrence is a needlessly quoted source line, then `clear` of a file
+whose position 1 does not load (one field only): the positions behind it are popped, it stays and `load` raises -/
+example :
+    let F := csvFmt ',' 2
+    let f := (RecFile.open ["x,y".toList, "\"a\",\"b\"".toList, "a,b".toList])
+    (f.removeRec F ["a".toList, "b".toList]).toOption.map (·.slots) = some [.src 0, .src 2] ∧
+    f.records F = [["x".toList, "y".toList], ["a".toList, "b".toList], ["a".toList, "b".toList]].map some ∧
+    f.clearRec F = (⟨f.source, []⟩, none) ∧
+    (RecFile.open ["x,y".toList, "lonely".toList, "a,b".toList]).clearRec F =
+      (⟨["x,y".toList, "lonely".toList, "a,b".toList], [.src 0, .src 1]⟩, some .loadError) := by
+  decide
 
 /-- non-vacuity: a csv file of three lines (one field needlessly quoted), `f[1] = …`, `insert(0, …)`, `reverse()`:
 the stored slots, the presented records and the saved text -/
